@@ -42,7 +42,12 @@ class Harness:
         self.clock = Clock()
         self._orig_time = mem.time
         mem.time = self.clock
+        # two more handlers (one older, one newer) live in the same process and are busy with their own sessions:
+        # nothing they do may show in the store under test
+        older = ProtocolHandler(ServerInfo(name="older", version="1"), ServerCapabilities())
         self.handler = ProtocolHandler(ServerInfo(name="s", version="1"), ServerCapabilities())
+        self.neighbours = [older, ProtocolHandler(ServerInfo(name="newer", version="1"), ServerCapabilities())]
+        self.steps = 0
         self.sm = self.handler.session_manager
         self.model: Dict[str, Dict[str, Any]] = {}
         self.known: List[str] = []
@@ -62,6 +67,25 @@ class Harness:
         v: List[Tuple[str, str]] = []
         name = op[0]
         sm, model, now = self.sm, self.model, self.clock.now
+        self.steps += 1
+        nb = self.neighbours[self.steps % 2].session_manager
+        kind = self.steps % 7
+        if kind in (0, 1, 2):
+            nsid = nb.create_session({"name": "neighbour"}, "2025-03-26", metadata=None if kind else {"nb": 1})
+            rec = nb.get_session(nsid)
+            if rec is not None and rec.metadata is not None:
+                rec.metadata["neighbour"] = True
+        elif kind == 3:
+            for nsid in list(nb.list_sessions())[:1]:
+                nb.delete_session(nsid)
+        elif kind == 4:
+            nb.cleanup_expired(0)
+        elif kind == 5:
+            nb.clear_all_sessions()
+        else:
+            for known in self.known[:2]:
+                nb.delete_session(known)
+                nb.update_activity(known)
         if name == "create":
             self.n_created += 1
             ci = {"name": f"client-{self.n_created}", "version": "1"}
